@@ -10,39 +10,6 @@ Open Scope Z_scope.
 Ltac Zify.zify_post_hook ::= Z.to_euclidean_division_equations.
 
 (* ------------------------------------------------------------------ *)
-(** * The valid choices, spelled out *)
-
-Definition B16 : Z := 32768.
-Definition bnd (M x : Z) : Prop := - M <= x <= M.
-
-(* a sample of a 16-bit signal that the current bit shift can represent *)
-Definition sample_ok (shift s : Z) : Prop := bnd B16 s /\ s mod 2 ^ shift = 0.
-
-Definition sumabs (qs : list Z) : Z := fold_right (fun q a => Z.abs q + a) 0 qs.
-
-Definition pred_ok (p : params) (bs : Z) (pr : predictor) (smp : list Z) : Prop :=
-  match pr with
-  | PZero => Forall (fun s => s = 0) smp
-  | PDiff k => 0 <= k <= 3
-  | PQlpc qs => Z.of_nat (length qs) <= p_maxnlpc p /\ Z.max (p_maxnlpc p) c_NWRAP <= bs
-                /\ sumabs qs <= 16384
-  end.
-
-Definition next_chan (p : params) (chan : nat) : nat :=
-  if Z.of_nat chan =? p_nchan p - 1 then O else S chan.
-
-(* [bs], [shift], [chan]: block size, bit shift and channel in force *)
-Fixpoint valid_items (p : params) (bs shift : Z) (chan : nat) (its : list item) : Prop :=
-  match its with
-  | [] => True
-  | IBlockSize n :: r => chan = O /\ 0 < n <= p_bs p /\ valid_items p n shift chan r
-  | IBitShift s :: r => 0 <= s < 32 /\ valid_items p bs s chan r
-  | IBlock pr resn smp :: r =>
-    Z.of_nat (length smp) = bs /\ 0 <= resn /\ Forall (sample_ok shift) smp /\ pred_ok p bs pr smp
-    /\ valid_items p bs shift (next_chan p chan) r
-  end.
-
-(* ------------------------------------------------------------------ *)
 (** * Arithmetic *)
 
 Lemma bnd_fits32 M x : M < 2147483648 -> bnd M x -> fits32 x = true.
